@@ -32,7 +32,7 @@ def goenv():
     return env
 
 
-def write_overlay(path=None):
+def write_overlay(path=None, exclude=()):
     """Overlay that ADDS /verif/harness/inpkg/<pkg>/*.go to /repo/<pkg>/ (never replaces)."""
     path = path or os.path.join(VERIF, "overlay.json")
     rep = {}
@@ -41,7 +41,7 @@ def write_overlay(path=None):
         if not os.path.isdir(d):
             continue
         for f in sorted(os.listdir(d)):
-            if f.endswith(".go"):
+            if f.endswith(".go") and f not in exclude:
                 dst = os.path.join(REPO, pkg, f)
                 if os.path.exists(dst):
                     raise Infra("overlay would replace existing file %s" % dst)
@@ -189,26 +189,45 @@ class Ctx:
 
     # ------------------------------------------------------------------ Go
     def go_harness(self, pkg, run, env=None, timeout=1500, tags="verif", race=False):
-        """Run an in-package harness (overlay) against /repo's working tree."""
-        ov = write_overlay(os.path.join(self.scratch, "overlay.json"))
+        """Run an in-package harness (overlay) against /repo's working tree.
+
+        Harness files of other properties that do not compile against the current tree are left
+        out (one broken harness must not disable the other checks of the same package); if the
+        file holding the requested test is itself affected this is an infrastructure error."""
         e = goenv()
         e["VERIF_SEED"] = str(self.seed)
         e["VERIF_TIER"] = self.tier
         if env:
             e.update({k: str(v) for k, v in env.items()})
-        cmd = [GO, "test", "-tags", tags, "-overlay", ov, "-count=1", "-vet=off",
-               "-timeout", "%ds" % timeout, "-run", run, "./" + pkg]
-        if race:
-            cmd.insert(2, "-race")
+        exclude = set()
+        for attempt in range(8):
+            ov = write_overlay(os.path.join(self.scratch, "overlay.json"), exclude=exclude)
+            cmd = [GO, "test", "-tags", tags, "-overlay", ov, "-count=1", "-vet=off",
+                   "-timeout", "%ds" % timeout, "-run", run, "./" + pkg]
+            if race:
+                cmd.insert(2, "-race")
+            try:
+                p = subprocess.run(cmd, cwd=REPO, env=e, stdout=subprocess.PIPE, stderr=subprocess.STDOUT,
+                                   timeout=timeout + 60, text=True, errors="replace")
+            except subprocess.TimeoutExpired:
+                raise Infra("go harness timeout %s %s" % (pkg, run))
+            out = p.stdout
+            if "[build failed]" in out or "[setup failed]" in out:
+                bad = set(re.findall(r"(zz_verif_\w+_test\.go):\d+", out)) - {"zz_verif_vtrace_test.go"}
+                mine = set()
+                tname = run.strip("^$")
+                hd = os.path.join(VERIF, "harness", "inpkg", pkg)
+                for f in os.listdir(hd):
+                    if f.endswith(".go") and re.search(r"func %s\b" % re.escape(tname), open(os.path.join(hd, f)).read()):
+                        mine.add(f)
+                new = bad - exclude - mine
+                if new and not (bad & mine):
+                    exclude |= new
+                    self.notes.append("harness files left out of the build (do not compile): %s" % sorted(new))
+                    continue
+                raise Infra("harness does not build against the current tree (%s %s):\n%s" % (pkg, run, out[-3000:]))
+            break
         self.checker_cmds.append(" ".join(cmd[:2] + ["-tags", tags, "-overlay overlay.json -run", run, "./" + pkg]))
-        try:
-            p = subprocess.run(cmd, cwd=REPO, env=e, stdout=subprocess.PIPE, stderr=subprocess.STDOUT,
-                               timeout=timeout + 60, text=True, errors="replace")
-        except subprocess.TimeoutExpired:
-            raise Infra("go harness timeout %s %s" % (pkg, run))
-        out = p.stdout
-        if "[build failed]" in out or "[setup failed]" in out or re.search(r"^# ", out, re.M) and p.returncode != 0 and "--- FAIL" not in out and "panic:" not in out:
-            raise Infra("harness does not build against the current tree (%s %s):\n%s" % (pkg, run, out[-3000:]))
         if "no tests to run" in out:
             raise Infra("harness %s not found in %s" % (run, pkg))
         if p.returncode != 0:
